@@ -102,6 +102,15 @@ CFG_TB = COMMON_TB + [
     "harness/gen.go: reflection over nfpm.Config (Gen/TypeTree.v), the schema emitted by the freshly built binary and the published one (Gen/Schema.v), the YAML reference block of www/docs/configuration.md via yaml.v3 nodes (Gen/DocConfig.v)",
     "YAML tokenisation is yaml.v3's (documents reach the model as key trees); merge keys and anchors are outside the modelled envelope",
 ]
+PROPS["C11"] = {
+    "level": "proof", "harness": "C11", "driver": "C11", "shrink_field": "ops", "exhaustive": False,
+    "rule": ("cases = histories of {validate, file-name(f), package(f)} on ONE parsed configuration: every ordered pair (a, b, a) of the 11 operations (121; quick: a seeded third), all 120 orders of the five packagings (quick: a seeded eighth), "
+             "random histories of length 2..10, over generated configurations with override blocks, custom field maps, entries of every type with and without file_info. Per operation: output (package bytes hash / file name / validation result) against the same "
+             "operation on a freshly parsed copy, and a deep reflective snapshot of the whole parsed configuration against the initial one; at the end Config.Get(f) for all formats against fresh. "
+             "The model side: the configuration as a heap (one cell per pointer / slice / map), the transcribed writer scripts run on it, privacy of each operation and the aliasing of each Get result compared with addresses observed in the code. "
+             "distinct = distinct (configuration, history); all count as non-trivial"),
+    "trusted_base": CFG_TB, "assumptions": [],
+}
 PROPS["C13"] = {
     "level": "proof", "harness": "C13", "driver": "C13", "shrink_field": None, "exhaustive": True,
     "rule": ("cases = for EVERY overridable leaf field found by reflection (62) x every format x {base set, unset} x {override set, unset}, with another format's block setting the same leaf (exhaustive matrix); "
